@@ -312,6 +312,7 @@ def c044(ctx):
                 kinds |= set(k)
         ctx.ob('C04.4', tr, 'stream-identity-checked', kinds == {'stream_kind', 'stream_id'}, 'a sidecar line is accepted only when its stream kind and stream id match (checked: %s)' % sorted(kinds), line=pu.line)
     guarded_answers(ctx)
+    c048(ctx)
     # ---- C04.6
     rp = P.fn('ripd::continuities::ContinuityStore::replay_events')
     ctx.touch(rp)
@@ -406,3 +407,19 @@ def _loop_guard(f, edges, b):
         if all(b not in f.reach(x) for x in other):
             return True
     return False
+
+
+def c048(ctx):
+    """unparsable cache bytes are an error, never skipped: all parse sites of the cache modules
+    propagate failure with `?` (20 of 20 on the confirmed tree — an exact majority rule)."""
+    from .c01 import ok_edge_of_try
+    P = ctx.prog
+    ctx.rule('C04.8', 'every serde_json::from_* over cache bytes in the cache modules propagates a parse failure with `?`: a torn or garbage line makes the fast path fail (and the store fall back to truth), it is never skipped, defaulted or turned into a shorter answer.')
+    n = 0
+    for f in P.find_fns(r'^ripd::(continuity_stream_cache|continuity_seek_index|message_ordinal_index|compaction_checkpoint_index)::'):
+        for s in f.calls(r'^serde_json::de::from_(str|slice|reader)$'):
+            n += 1
+            e = ok_edge_of_try(f, s)
+            ctx.ob('C04.8', f, 'parse-failure-propagates', e is not None and e[1] is not None,
+                   'parse of cache bytes %s' % ('propagates failure with `?`' if e else 'does NOT propagate failure: unparsable bytes are silently skipped / defaulted'), line=s.line)
+    ctx.floor('C04.8', 'parse sites in the cache modules', n, 20)
